@@ -274,6 +274,7 @@ class World:
         self.reach: dict[str, int] = {}
         self.file_mtime_seq = 0
         self.mark_hook = None
+        self.pre_setup = None
 
     # ---------------------------------------------------------------- helpers
     def vts(self) -> float:
@@ -518,6 +519,10 @@ class World:
                 self._bus_unsub = hass.bus.async_listen("*", self._on_bus_event)  # MATCH_ALL
                 for ent, (sval, attrs) in sorted((self.cfg.get("initial_states") or {}).items()):
                     hass.states.async_set(ent, sval, attrs or {})
+                if self.pre_setup is not None:
+                    res = self.pre_setup(hass)
+                    if asyncio.iscoroutine(res):
+                        await res
                 self.census_pre_setup = self.census()
                 conf = {"pyscript": self.pyscript_conf()}
                 ok = await async_setup_component(hass, "pyscript", conf)
